@@ -51,6 +51,9 @@ pub struct Case {
     /// the gateway was upgraded by its owner and not yet migrated (a contract-wide mode must not open anything)
     #[serde(default)]
     pub window_open: bool,
+    /// entry-point sweep case (see sweep.rs); the other fields are ignored
+    #[serde(default)]
+    pub sweep: Option<crate::sweep::SweepCase>,
 }
 
 fn strc() -> impl Strategy<Value = Str> {
@@ -92,19 +95,23 @@ fn len_strategy(tier: Tier) -> BoxedStrategy<u32> {
     .boxed()
 }
 
+fn blank() -> Case {
+    Case { sender: Sender::AccountUnauthorised, chain: Str::Empty, addr: Str::Empty, len: 0, seed: 0, window_open: false, sweep: None }
+}
+
 impl Property for C13 {
     type Case = Case;
     fn id(&self) -> &'static str {
         "C13"
     }
     fn rule(&self) -> &'static str {
-        "proptest single cases: sender (account with exact authorisation / none / authorisation for another payload / another account's authorisation; probe contract calling as itself / naming an account; the gateway's own address, its owner or its operator named as sender with nobody signing; the shipped example app sending for an account with / without that account's authorisation), gateway in its ordinary state or upgraded-but-not-migrated, destination chain and address strings (empty, ASCII up to 300 bytes, multi-byte UTF-8, invalid UTF-8, up to 12 KB long), payload lengths around the Keccak rate (0,1,31,32,33,135,136,137,271..273,...) up to 64 KiB with case-seeded content. Oracle: success iff the sender authorised (or is the calling contract); then exactly one event by the gateway with topics (contract_called, sender, chain, address, own Keccak-256(payload)) and data = payload, and the gateway's own ledger entries unchanged; otherwise failure, no event, full snapshot equality. non-trivial = every case (the suite has one sample); distinct by Debug hash of the whole case"
+        "proptest single cases: sender (account with exact authorisation / none / authorisation for another payload / another account's authorisation; probe contract calling as itself / naming an account; the gateway's own address, its owner or its operator named as sender with nobody signing; the shipped example app sending for an account with / without that account's authorisation), gateway in its ordinary state or upgraded-but-not-migrated, destination chain and address strings (empty, ASCII up to 300 bytes, multi-byte UTF-8, invalid UTF-8, up to 12 KB long), payload lengths around the Keccak rate (0,1,31,32,33,135,136,137,271..273,...) up to 64 KiB with case-seeded content. Oracle: success iff the sender authorised (or is the calling contract); then exactly one event by the gateway with topics (contract_called, sender, chain, address, own Keccak-256(payload)) and data = payload, and the gateway's own ledger entries unchanged; otherwise failure, no event, full snapshot equality. non-trivial = every case (the suite has one sample); distinct by Debug hash of the whole case. One case in six is an entry-point sweep: the exported functions of all seven shipped contracts are read from the sources of the tree under test (entry points absent from the inventory taken at the pinned commit get 300 deterministic cases each and half of the random ones), one is called on a fully deployed system (gateway, gas service, operators, token service with a deployed token, stand-alone token, upgrader, example app; some contracts optionally upgraded-but-not-migrated) with arguments drawn from pools of the system's principals, contracts, tokens, names, ids and boundary amounts, every require_auth satisfied by the host's mock and recorded; oracle: every contract_called event of the gateway names a sender that is among the recorded signers or is the called contract itself (cases where the mock let a contract sign are discarded); non-trivial = the call succeeded"
     }
     fn cases(&self, tier: Tier) -> u64 {
         tier.pick(20000, 200000)
     }
     fn strategy(&self, tier: Tier) -> BoxedStrategy<Case> {
-        (
+        let direct = (
             prop_oneof![
                 4 => Just(Sender::AccountAuthorised),
                 1 => Just(Sender::AccountUnauthorised),
@@ -123,11 +130,21 @@ impl Property for C13 {
             any::<u64>(),
             prop_oneof![3 => Just(false), 1 => Just(true)],
         )
-            .prop_map(|(sender, chain, addr, len, seed, window_open)| Case { sender, chain, addr, len, seed, window_open })
-            .boxed()
+            .prop_map(|(sender, chain, addr, len, seed, window_open)| Case { sender, chain, addr, len, seed, window_open, sweep: None });
+        let direct = direct.boxed();
+        match crate::sweep::strategy(crate::sweep::Rule::Announce) {
+            Some(sw) => prop_oneof![5 => direct, 1 => sw.prop_map(|s| Case { sweep: Some(s), ..blank() })].boxed(),
+            None => direct,
+        }
+    }
+    fn fixed_cases(&self, _tier: Tier) -> Vec<Case> {
+        crate::sweep::fixed_cases(300).into_iter().map(|s| Case { sweep: Some(s), ..blank() }).collect()
     }
 
     fn run(&self, case: &Case, cx: &mut Cx) -> Result<(), String> {
+        if let Some(sw) = &case.sweep {
+            return crate::sweep::run(sw, cx, crate::sweep::Rule::Announce);
+        }
         let env = new_env();
         let gw = deploy_gateway(&env, [1; 32], 0, 0, &[simple_set(1)]).map_err(|e| format!("setup: {}", e))?;
         if case.window_open {
